@@ -671,6 +671,36 @@ def main():
                       "model": out[:1500], "implementation": real[:1500]}, found_input=False)
     elif disagreements:
         ck.notes.append("model/code disagreements: %d (explained by the Spec rejections above)" % len(disagreements))
+    # --- alignment requests reaching the allocators: LiveRangeGraph.get_or_create_range / LiveRange.set_alignment -------
+    if not ck.replay_arg:
+        from ethosu.vela import live_range as lr_mod
+
+        arng = ck.rng
+        areqs, afinal = [], []
+        for _ in range(400 if not ck.thorough else 4000):
+            n = arng.randint(1, 6)
+            al_reqs = [arng.choice([16, 16, 32, 64, 128, 256]) for _ in range(n)]
+            g = lr_mod.LiveRangeGraph()
+            t = StubTens("al", 48, 1)
+            rng_obj = None
+            for a in al_reqs:
+                rng_obj = g.get_or_create_range(t, a)
+            areqs.append(al_reqs)
+            afinal.append(int(rng_obj.get_alignment()))
+        if areqs:
+            mod = ck.model(["lralign " + " ".join(map(str, r)) for r in areqs], parallel=False)
+            spec = ck.model(["lralignspec %d %s" % (f, " ".join(map(str, r))) for r, f in zip(areqs, afinal)], parallel=False)
+            bad = [(r, f, m, sp) for r, f, m, sp in zip(areqs, afinal, mod, spec) if sp != "1"]
+            dis = [(r, f, m) for r, f, m in zip(areqs, afinal, mod) if str(f) != m]
+            ck.count("alignment_request_sequences", len(areqs))
+            for r, f, m, sp in bad[:2]:
+                ck.violation(f"live range alignment {f} does not honour the requested alignments {r} (get_or_create_range / set_alignment)",
+                             {"requests": r, "implementation_alignment": f, "model_alignment": m,
+                              "replay": "LiveRangeGraph().get_or_create_range(tensor, a) for a in requests; rng.get_alignment()"})
+            if dis and not bad:
+                r, f, m = dis[0]
+                ck.violation("correspondence Model/LiveRangeAlign.lean vs LiveRange.set_alignment broken",
+                             {"correspondence": "lralign", "requests": r, "implementation": f, "model": m}, found_input=False)
     for ci in sorted({0, len(cases) // 3, len(cases) // 2}):
         r = results[ci][0]
         ck.sample({"request": r[1][:300], "implementation": (r[2] or "")[:200]})
